@@ -10,6 +10,7 @@ import (
 	"crypto/fips140"
 	"crypto/rsa"
 	"crypto/tls"
+	"math"
 	"net"
 	"slices"
 	"time"
@@ -129,6 +130,18 @@ func effectiveMTU(mtu int) int {
 func effectiveReplayProtectionWindow(replayProtectionWindow int) int {
 	if replayProtectionWindow <= 0 {
 		return defaultReplayProtectionWindow
+	}
+
+	// The replay detector keeps its window in 64-bit words and is only exact
+	// when the window fills whole words: for other sizes it keeps 64-size%64
+	// instead of size%64 bits of the last word on every shift (a window of 48
+	// forgets records that are more than 16 behind the newest one), so that a
+	// replayed record inside the window is accepted again. Round up to whole
+	// words; a larger window tolerates more reordering and still never accepts
+	// a record twice.
+	const wordBits = 64
+	if rem := replayProtectionWindow % wordBits; rem != 0 && replayProtectionWindow <= math.MaxInt-wordBits {
+		replayProtectionWindow += wordBits - rem
 	}
 
 	return replayProtectionWindow
